@@ -12,7 +12,8 @@ from pathlib import Path
 VERIF = Path(__file__).resolve().parent.parent
 SPECS = VERIF / "specs"
 OUT = VERIF / "out"
-EVIDENCE = VERIF / "evidence"
+# seeded-change evaluations (tools/seed.py) point this elsewhere so that they never overwrite real evidence
+EVIDENCE = Path(os.environ.get("VERIF_EVIDENCE_DIR") or (VERIF / "evidence"))
 REPO = Path(os.environ.get("VERIF_REPO", "/repo")).resolve()
 SEED = int(os.environ.get("VERIF_SEED", "0") or 0)
 NCPU = min(16, os.cpu_count() or 1)
